@@ -6,22 +6,154 @@
 import PG.Spec.CacheView
 import PG.Lemmas.BSearch
 import PG.Lemmas.Sorted
+import PG.Lemmas.CacheQueries0
 namespace PG
+
+theorem class_lookup (recs : List Record) (c : Cache) (hw : WriterSpec recs c)
+    (v : List CView) (hv : c.view = some v) (name : Bytes) :
+    (SpecR.lastBlock recs name = none → c.getClass name = none) ∧
+    (∀ b, SpecR.lastBlock recs name = some b → ∃ k cv, c.getClass name = some k ∧
+      c.viewClass k = some cv ∧ cv ∈ v ∧ cv.orig = b.orig ∧
+      cv.members.Pairwise (fun x y => cmpBytes x.obf y.obf ≠ .gt) ∧
+      (∀ m, (cv.members.filter (fun x => x.obf == m)).map MView.core =
+              (b.entries.filter (fun e => e.obf == m)).map (fun e => MView.ofEntry e 0)) ∧
+      cv.byParams.Pairwise (fun x y => cmpPair (x.obf, x.args) (y.obf, y.args) ≠ .gt) ∧
+      (∀ m p, (cv.byParams.filter (fun x => x.obf == m && x.args == p)).map MView.core =
+              (b.realEntries.filter (fun e => e.obf == m && e.args == p)).map
+                (fun e => MView.ofEntry e 0))) := by
+  obtain ⟨h1, h2⟩ := hw.class_iff v hv name
+  constructor
+  · intro hn
+    exact getClass_none c v hv name (h1 hn)
+  · intro b hb
+    obtain ⟨cv, hcv, hname, horig, p1, p2, p3, p4⟩ := h2 b hb
+    obtain ⟨k, hk, hkv⟩ := getClass_some c v hv (hw.classes_sorted v hv) name cv hcv hname
+    exact ⟨k, cv, hk, hkv, hcv, horig, p1, p2, p3, p4⟩
 
 theorem cache_class (recs : List Record) (c : Cache) (hr : ReprR recs) (hw : WriterSpec recs c)
     (name : Bytes) : c.remapClass name = SpecR.classOf recs name := by
-  sorry
+  have _ := hr
+  obtain ⟨v, hv⟩ := hw.view_some
+  obtain ⟨h1, h2⟩ := class_lookup recs c hw v hv name
+  unfold Cache.remapClass SpecR.classOf
+  cases hlb : SpecR.lastBlock recs name with
+  | none => rw [h1 hlb]; rfl
+  | some b =>
+    obtain ⟨k, cv, hk, hkv, _, horig, _⟩ := h2 b hlb
+    rw [hk]
+    simp only [Option.map_some]
+    rw [(viewClass_some c k cv hkv).2.1, horig]
 
 theorem cache_method (recs : List Record) (c : Cache) (hr : ReprR recs) (hw : WriterSpec recs c)
     (cls m : Bytes) : c.remapMethod cls m = SpecR.methodOf recs cls m := by
-  sorry
+  have _ := hr
+  obtain ⟨v, hv⟩ := hw.view_some
+  obtain ⟨h1, h2⟩ := class_lookup recs c hw v hv cls
+  unfold Cache.remapMethod SpecR.methodOf
+  cases hlb : SpecR.lastBlock recs cls with
+  | none => rw [h1 hlb]
+  | some b =>
+    obtain ⟨k, cv, hk, hkv, hcv, horig, p1, p2, _, _⟩ := h2 b hlb
+    obtain ⟨_, ho, ms, bs, hms, _, hmv, _⟩ := viewClass_some c k cv hkv
+    obtain ⟨r, hfr, hrW⟩ := members_range c ms cv.members hmv p1 m
+    have hF := F2_of_views c.viewMember MView.core (fun e => MView.ofEntry e 0) r _ _ hrW (p2 m)
+    simp only [hk, hms, hfr]
+    generalize b.entries.filter (fun e => e.obf == m) = E at hF
+    cases hF with
+    | nil => simp
+    | @cons first e rest es hfe hrest =>
+      simp only [List.cons_ne_nil, if_false]
+      obtain ⟨w0, hw0, hv0, hc0, _⟩ := hfe
+      have hw0' : w0 ∈ cv.members := (List.mem_filter.mp hw0).1
+      obtain ⟨_, n0, _, _, _, _, _, _, _, _, _, o0⟩ := viewMember_some c hw.strings_small first w0 hv0
+      obtain ⟨_, nm0, _⟩ := core_eq w0 e hc0
+      have hall : rest.all (fun x => x.origNameOff == first.origNameOff) =
+          es.all (fun x => x.name == e.name) := by
+        apply hrest.all_eq
+        intro a b' ⟨w, hwm, hva, hca, _⟩
+        have hwm' : w ∈ cv.members := (List.mem_filter.mp hwm).1
+        obtain ⟨_, _, _, _, _, _, _, _, _, _, _, o1⟩ := viewMember_some c hw.strings_small a w hva
+        obtain ⟨_, nm1, _⟩ := core_eq w b' hca
+        have := hw.name_inj v hv cv hcv w hwm' w0 hw0'
+        rw [Bool.eq_iff_iff]
+        simp only [beq_iff_eq, o1, o0, this, nm1, nm0]
+      rw [hall, ho, n0, nm0, horig]
+
+
+theorem paramFrames_entries (c : Cache) (hs : c.strings.length < u32Max) (q : Frame) (orig : Bytes)
+    (r : List RawMember) (E : List SpecR.Entry)
+    (hF : F2 (fun m e => ∃ w, c.viewMember m = some w ∧ w.core = MView.ofEntry e 0) r E) :
+    c.paramFrames { q with cls := orig } r =
+      E.map (fun e => { cls := e.fc.getD orig, method := e.name, line := 0, file := none,
+                        params := q.params }) := by
+  induction hF with
+  | nil => rfl
+  | @cons m e r E hme _ ih =>
+    obtain ⟨w, hv, hc⟩ := hme
+    obtain ⟨_, v2, v3, _⟩ := viewMember_some c hs m w hv
+    obtain ⟨_, c2, _, c4, _⟩ := core_eq w e hc
+    simp only [Cache.paramFrames, v2, v3, c2, c4, List.map_cons, ih]
 
 theorem cache_frames_line (recs : List Record) (c : Cache) (hr : ReprR recs) (hw : WriterSpec recs c)
     (q : Frame) (hq : q.params = none) : c.remapFrame q = SpecR.framesByLine recs q := by
-  sorry
+  obtain ⟨v, hv⟩ := hw.view_some
+  obtain ⟨h1, h2⟩ := class_lookup recs c hw v hv q.cls
+  unfold Cache.remapFrame SpecR.framesByLine
+  cases hlb : SpecR.lastBlock recs q.cls with
+  | none => rw [h1 hlb]
+  | some b =>
+    obtain ⟨k, cv, hk, hkv, hcv, horig, p1, p2, _, _⟩ := h2 b hlb
+    obtain ⟨_, ho, ms, bs, hms, _, hmv, _⟩ := viewClass_some c k cv hkv
+    obtain ⟨r, hfr, hrW⟩ := members_range c ms cv.members hmv p1 q.method
+    have hF := F2_of_views c.viewMember MView.core (fun e => MView.ofEntry e 0) r _ _ hrW
+      (p2 q.method)
+    simp only [hk, ho, hq, hms, hfr, horig]
+    have hfm : r.filterMap (c.lineFrame { q with cls := b.orig }) =
+        ((b.entries.filter (fun e => e.obf == q.method)).filter
+          (fun e => SpecR.applies e.lm q.line)).map
+          (fun e => { cls := e.fc.getD b.orig, method := e.name,
+                      line := SpecR.origLineOf e.lm q.line,
+                      file := SpecR.fileOf e b.orig q.file, params := q.params }) := by
+      apply hF.filterMap_eq
+      intro m e ⟨w, _, hvm, hc, he⟩
+      exact lineFrame_entry c hw.strings_small m w e hvm hc
+        (entries_goodLm recs hr q.cls b hlb e (List.mem_filter.mp he).1) q b.orig
+    simp only [hq] at hfm
+    by_cases hnil : r = []
+    · subst hnil
+      rw [if_pos rfl]
+      simp only
+      rw [← hfm]; rfl
+    · rw [if_neg hnil]
+      simp only
+      exact hfm
 
 theorem cache_frames_params (recs : List Record) (c : Cache) (hr : ReprR recs) (hw : WriterSpec recs c)
     (q : Frame) (p : Bytes) (hq : q.params = some p) : c.remapFrame q = SpecR.framesByParams recs q p := by
-  sorry
+  have _ := hr
+  obtain ⟨v, hv⟩ := hw.view_some
+  obtain ⟨h1, h2⟩ := class_lookup recs c hw v hv q.cls
+  unfold Cache.remapFrame SpecR.framesByParams
+  cases hlb : SpecR.lastBlock recs q.cls with
+  | none => rw [h1 hlb]
+  | some b =>
+    obtain ⟨k, cv, hk, hkv, hcv, horig, _, _, p3, p4⟩ := h2 b hlb
+    obtain ⟨_, ho, ms, bs, _, hbs, _, hbv⟩ := viewClass_some c k cv hkv
+    obtain ⟨r, hfr, hrW⟩ := byParams_range c hw.strings_small bs cv.byParams hbv p3 q.method p
+    have hF := F2_of_views c.viewMember MView.core (fun e => MView.ofEntry e 0) r _ _ hrW
+      (p4 q.method p)
+    have hpf := paramFrames_entries c hw.strings_small q b.orig r _
+      (hF.imp (fun m e ⟨w, _, h1, h2, _⟩ => ⟨w, h1, h2⟩))
+    simp only [hk, ho, hq, hbs, hfr, horig]
+    by_cases hnil : r = []
+    · subst hnil
+      rw [if_pos rfl]
+      simp only
+      rw [← hq]
+      exact hpf
+    · rw [if_neg hnil]
+      simp only
+      rw [← hq]
+      exact hpf
 
 end PG
